@@ -351,7 +351,7 @@ pub fn run(ctx: &Ctx) -> PropResult {
         }
         judge_method(rec, i, off, m, c, stratum);
     }));
-    wls.push(Workload::cases("offset_local_twins", ctx.count(4_000, 150_000), |rec, _, rng| super::localzone::twin_case(rec, rng, "C04", super::walk::Family::Arithmetic)));
+    wls.push(Workload::cases("offset_local_twins", ctx.count(4_000, 40_000), |rec, _, rng| super::localzone::twin_case(rec, rng, "C04", super::walk::Family::Arithmetic)));
     wls.push(Workload::cases("date_api_walks", ctx.count(20_000, 800_000), |rec, _, rng| super::walk::walk_date(rec, rng, "C04", super::walk::Family::Arithmetic)));
     wls.push(Workload::cases("api_walks", ctx.count(30_000, 1_500_000), |rec, _, rng| super::walk::walk(rec, rng, "C04", super::walk::Family::Arithmetic)));
     let out = run_workloads(ctx, wls);
